@@ -22,7 +22,7 @@ COMMON_HPP = r'''
 #include <vector>
 #include <unistd.h>
 // harness state lives in function-local statics: safe to use from any dynamic initialiser
-inline std::vector<std::string>& vf_results() { static std::vector<std::string> r(4096); return r; }
+inline std::vector<std::string>& vf_results() { static std::vector<std::string> r(8192); return r; }
 inline int vf_mark(int i) { char b[32]; int n = std::snprintf(b, sizeof b, "M%d\n", i); ssize_t w = write(2, b, (size_t)n); (void)w; return i; }
 inline std::string vf_rec(int i, const std::string& v) { vf_results()[(size_t)i] = v; return v; }
 template <class T> inline std::string vf_hex(T v) { char b[64]; std::snprintf(b, sizeof b, "%La", (long double)v); return b; }
@@ -149,6 +149,44 @@ def make_strategies(scan, intro):
         return tus
     return program()
 
+class Program(list):
+    """a list of translation units (lists of probes); `inline_objects`: the user's objects are inline variables (partially ordered initialisation)"""
+    inline_objects = False
+    label = 'generated'
+
+def sweep_programs(scan, intro):
+    """Enumerated part of the quantifier: every table facility x every unit type (not sampled), as ordinary and as inline namespace-scope objects."""
+    units = sorted((e for e in intro['enumerations'] if e['kind'] == 'unit'), key=lambda e: e['type'])
+    systems = [e for e in intro['enumerations'] if e['kind'] == 'unit_system'][0]['enumerators']
+    probes = []
+    for e in units:
+        ut = e['type']; U = 'PhQ::Unit::%s' % ut; hdr = ['PhQ/Unit/%s.hpp' % ut]
+        std = [x for x in e['enumerators'] if x['value'] == e['standard']][0]; last = e['enumerators'][-1]
+        for en in (std, last):
+            u = '%s::%s' % (U, en['name'])
+            probes.append(Probe('abbreviation table', False, hdr, 'const std::string OBJ{PhQ::Abbreviation(%s)};' % u, 'OBJ|std::string(PhQ::Abbreviation(%s))' % u, 'Abbreviation(%s::%s)' % (ut, en['name'])))
+            ex = 'static_cast<int>(PhQ::RelatedUnitSystem(%s).value_or(static_cast<PhQ::UnitSystem>(-1)))' % u
+            probes.append(Probe('related-unit-system table', False, hdr, 'const int OBJ{%s};' % ex, 'std::to_string(OBJ)|std::to_string(%s)' % ex, 'RelatedUnitSystem(%s::%s)' % (ut, en['name'])))
+        if e.get('spellings'):
+            lit = json.dumps(e['spellings'][-1][0], ensure_ascii=False)
+            ex = 'static_cast<int>(PhQ::ParseEnumeration<%s>(%s).value_or(static_cast<%s>(-1)))' % (U, lit, U)
+            probes.append(Probe('spelling table', False, hdr, 'const int OBJ{%s};' % ex, 'std::to_string(OBJ)|std::to_string(%s)' % ex, 'ParseEnumeration<%s>(%s)' % (ut, lit)))
+        for sy in systems:
+            ex = 'static_cast<int>(PhQ::ConsistentUnit<%s>(PhQ::UnitSystem::%s))' % (U, sy['name'])
+            probes.append(Probe('consistent-unit table', False, hdr, 'const int OBJ{%s};' % ex, 'std::to_string(OBJ)|std::to_string(%s)' % ex, 'ConsistentUnit<%s>(%s)' % (ut, sy['name'])))
+        ex = 'PhQ::Dimensions(PhQ::RelatedDimensions<%s>).Print()' % U
+        probes.append(Probe('dimension set', False, hdr, 'const std::string OBJ{%s};' % ex, 'OBJ|%s' % ex, 'RelatedDimensions<%s>' % ut))
+    for sy in systems:
+        ex = 'std::string(PhQ::Abbreviation(PhQ::UnitSystem::%s))' % sy['name']
+        probes.append(Probe('abbreviation table', False, ['PhQ/UnitSystem.hpp'], 'const std::string OBJ{%s};' % ex, 'OBJ|%s' % ex, 'Abbreviation(UnitSystem::%s)' % sy['name']))
+    out = []
+    for inline_objects in (False, True):
+        n = len(probes); third = (n + 2) // 3
+        prog = Program([probes[0:third], probes[third:2 * third], probes[2 * third:]])
+        prog.inline_objects = inline_objects; prog.label = 'sweep-inline' if inline_objects else 'sweep'
+        out.append(prog)
+    return out
+
 def render(program, outdir):
     os.makedirs(outdir, exist_ok=True)
     open(os.path.join(outdir, 'common.hpp'), 'w').write(COMMON_HPP)
@@ -164,9 +202,16 @@ def render(program, outdir):
             obj = 'g_obj_%d' % idx
             first, second = p.expr.split('|')
             # the object itself is a namespace-scope object with static storage duration; the mark is sequenced before its initialiser
-            src.append('static const int g_mark_%d = vf_mark(%d);' % (idx, idx))
-            src.append(p.decl.replace('OBJ', obj, 1) if p.decl.count('OBJ') == 1 else p.decl.replace('OBJ', obj))
-            src.append('static const std::string g_rec_%d = vf_rec(%d, %s);' % (idx, idx, first.replace('OBJ', obj)))
+            decl = p.decl.replace('OBJ', obj, 1) if p.decl.count('OBJ') == 1 else p.decl.replace('OBJ', obj)
+            if getattr(program, 'inline_objects', False):
+                # inline variables: partially ordered initialisation - still after every table the headers define before them (same order in every TU)
+                src.append('inline const int g_mark_%d = vf_mark(%d);' % (idx, idx))
+                src.append('inline ' + decl)
+                src.append('inline const std::string g_rec_%d = vf_rec(%d, %s);' % (idx, idx, first.replace('OBJ', obj)))
+            else:
+                src.append('static const int g_mark_%d = vf_mark(%d);' % (idx, idx))
+                src.append(decl)
+                src.append('static const std::string g_rec_%d = vf_rec(%d, %s);' % (idx, idx, first.replace('OBJ', obj)))
             body_main.append('  vf_check(%d, %s);' % (idx, second.replace('OBJ', obj)))
             meta.append(dict(index=idx, tu=t, facility=p.facility, dispatch=p.dispatch, text=p.text))
             idx += 1
@@ -267,6 +312,7 @@ def main():
     def collect(p): programs.append(p)
     collect()
     programs = programs[:nprog]
+    programs += sweep_programs(scan, intro)
     t0 = time.time()
     shutil.rmtree(work, ignore_errors=True); os.makedirs(work)
     results = []; facilities = {}; nprobes = 0; configs_run = 0; samples = []; violations = []; known = []
@@ -284,7 +330,7 @@ def main():
                 continue
             metas.append((pdir, render(prog, pdir), len(prog), CLANG + (GCC if full_gcc_left > 0 else [])))
             full_gcc_left -= 1
-            filt = [[p for p in tu if not p.dispatch] for tu in prog]; filt = [tu for tu in filt if tu]
+            filt = Program(tu for tu in ([p for p in tu if not p.dispatch] for tu in prog) if tu); filt.inline_objects = getattr(prog, 'inline_objects', False)
             excluded += sum(1 for tu in prog for p in tu if p.dispatch)
             if filt:
                 gdir = pdir + 'g'
